@@ -7,6 +7,7 @@ import Protobom.Model.Graph
 import Protobom.Model.Diff
 import Protobom.Model.Spdx
 import Protobom.Model.Cdx
+import Protobom.Model.Sniff
 
 namespace Protobom.Driver
 open Lean Protobom
@@ -385,6 +386,29 @@ def run (j : Json) : R Json := do
       let states := (prog.foldl (fun (st : List NodeList × List (List NodeList)) i =>
           let r := exec st.1 i; (r, st.2 ++ [r])) (regs, [])).2
       pure (Json.arr (states.map (fun rs => Json.arr (rs.map jNL).toArray)).toArray)
+  | "sniffSeq" => do
+      -- every input is detected on its own: the model has no state across calls
+      let inputs ← arrOf (← j.getObjVal? "inputs")
+      let rs ← inputs.toList.mapM (fun (i : Json) => do
+        let lines ← strList (← i.getObjVal? "lines")
+        let decl : Option Sniff.Decl := match i.getObjVal? "decl" with
+          | .ok (Json.arr #[Json.str a, Json.str b, Json.str c]) => some ⟨a, b, c⟩
+          | _ => none
+        let r := Sniff.sniffReader ⟨decl, lines⟩
+        let ev := Json.arr (r.2.map (fun e => match e with
+          | .read => Json.str "read" | .seek0 => Json.str "seek0")).toArray
+        pure (Json.mkObj [("r", jOutcome Json.str r.1), ("ev", ev),
+                          ("pos", toJson (Sniff.posAfter (fun p => p + 4096) 7 r.2))]))
+      pure (Json.arr rs.toArray)
+  | "fmtAcc" => do
+      let f ← getS j "f"
+      pure (Json.arr #[Json.str (Sniff.typ f), Json.str (Sniff.version f), Json.str (Sniff.major f),
+                       Json.str (Sniff.minor f), Json.str (Sniff.encoding f)])
+  | "declOf" => do
+      let f ← getS j "f"
+      pure (match (if Gen.Formats.writerFormats.contains f then Sniff.declOfFormat f else none) with
+            | some d => Json.arr #[Json.str d.bomFormat, Json.str d.specVersion, Json.str d.spdxVersion]
+            | none => Json.str "unwritable")
   | "spdxRT" => do pure (jOutcome jDoc (Spdx.rtSPDX (← docOf (← j.getObjVal? "doc"))))
   | "spdxRT2" => do
       -- two passes: the second must change nothing further
